@@ -313,7 +313,7 @@ func parseSendOOB(oob []byte) ([]byte, []uint64) {
 	if first < 0 {
 		return oob, gso
 	}
-	if first+gsoControlSize*len(gso) != len(oob) {
+	if first+unix.CmsgSpace(2)*len(gso) != len(oob) { // the real size, not the repo's constant
 		return oob, []uint64{}
 	}
 	return oob[:first], gso
@@ -1353,7 +1353,17 @@ func openPair(pass string) (*lbEnv, error) {
 		return nil, fmt.Errorf("open sender: %w", err)
 	}
 	e.b = conn.NewStdNetBind()
+	// asym_rx4off / asym_rx6off: the receiving bind is opened with UDP_GRO switched
+	// off on one of its two sockets (what Open sees on a host whose families differ)
+	if off := asymNetwork(pass); off != "" {
+		conn.VerifSetListenHook(func(network string, fd uintptr) {
+			if network == off {
+				unix.SetsockoptInt(int(fd), unix.IPPROTO_UDP, unix.UDP_GRO, 0)
+			}
+		})
+	}
 	fns, pb, err := e.b.Open(0)
+	conn.VerifSetListenHook(nil)
 	if err != nil {
 		e.a.Close()
 		return nil, fmt.Errorf("open receiver: %w", err)
@@ -1742,9 +1752,11 @@ func runLoopback(seed int64, nb int, withF4 bool) (map[string]any, map[string]an
 
 // replayAnyLoopback dispatches loopback cases to the pair, wire and pool drivers.
 func replayAnyLoopback(cs []*Case) map[string]any {
-	var pair, other, inject, dual, rxp []*Case
+	var pair, other, inject, dual, rxp, reo []*Case
 	for _, c := range cs {
-		if c.Pass == "rxplain" {
+		if c.Pass == "reopen" {
+			reo = append(reo, c)
+		} else if c.Pass == "rxplain" {
 			rxp = append(rxp, c)
 		} else if strings.HasPrefix(c.Pass, "dual_") {
 			dual = append(dual, c)
@@ -1774,17 +1786,20 @@ func replayAnyLoopback(cs []*Case) map[string]any {
 			lb[k] = v
 		}
 	}
+	if len(reo) > 0 {
+		lb["reopen"] = reopenPass(1)
+	}
 	return lb
 }
 
 // replayLoopback re-runs the loopback batches among cs.
 func replayLoopback(cs []*Case) map[string]any {
 	lb := map[string]any{}
-	for _, pass := range []string{"offload", "nooffload"} {
+	for _, pass := range []string{"offload", "nooffload", "asym_rx4off", "asym_rx6off"} {
 		var mine []*Case
 		for _, c := range cs {
 			p := c.Pass
-			if p != "nooffload" {
+			if p != "nooffload" && asymNetwork(p) == "" {
 				p = "offload"
 			}
 			if p == pass {
@@ -2003,6 +2018,9 @@ func main() {
 				lb[k] = v
 			}
 			for k, v := range runLoopback5(*seed, *lbatches) {
+				lb[k] = v
+			}
+			for k, v := range runLoopback6(*seed, *lbatches) {
 				lb[k] = v
 			}
 			if len(lbCases) > 0 {
